@@ -222,6 +222,9 @@ func fileOp2(h afero.File, t []string) string {
 	case "write":
 		n, err := h.Write(corr.UnHex(t[2]))
 		return fmt.Sprintf("n=%d err:%s", n, ErrClass(err))
+	case "writestring":
+		n, err := h.WriteString(string(corr.UnHex(t[2])))
+		return fmt.Sprintf("n=%d err:%s", n, ErrClass(err))
 	case "writeat":
 		n, err := h.WriteAt(corr.UnHex(t[2]), atoi64(t[3]))
 		return fmt.Sprintf("n=%d err:%s", n, ErrClass(err))
